@@ -6,6 +6,8 @@ CompleteBipartiteGraph object and on the Lean model; after construction and afte
 views (order, number_of_edges, edges(), neighbour / predecessor / successor lists, degrees,
 has_edge on a probe square including out-of-range vertices, the ValueError of the views on bad
 vertices, is_dag) are rendered to a canonical text and compared.
+`watch`: the same history, but the object is LOOKED at (all views rendered / judged) only after a random subset of the steps
+(driver request `ghistw`); in between it is updated unobserved, mostly by runs that bring the counts back to what they were.
 `batch`: the same with add_edges_from batches of every length around the powers of two and around the integer
 constants of the current source (common.probe_sizes), unordered, with repeats, with a refused pair at the start /
 in the middle / at the end, and the object used afterwards.  `nxraw`: from_networkx of every class on networkx
@@ -35,7 +37,10 @@ RULE = ("random histories of length 0..60 on graphs with at most 8 (growing to a
         "corpus of boundary histories runs first; networkx conversions from shuffled / relabelled networkx objects; "
         "add_edges_from batches of every length 0..5, 2^k-1..2^k+1 and around the constants of graphs.py (refused pair "
         "at the start / middle / end / nowhere, unordered, repeats) followed by further updates; from_networkx on "
-        "networkx objects of every class (multi-edges, loops, directed where undirected is expected and v.v.). "
+        "networkx objects of every class (multi-edges, loops, directed where undirected is expected and v.v.); "
+        "watch: histories whose views are read only at a random subset of the steps (15-50%; nothing is looked at in between), "
+        "built from runs that leave the counts unchanged (an edge removed and another inserted in either order, removed and put "
+        "back, net-zero runs, repeated insertions) mixed with plain insertions, removals, growth and refused calls. "
         "distinct = distinct request line; non-trivial = at least one operation (or one edge for nx)")
 ASSUMPTIONS = [
     "arguments of the update calls are Python ints (other types are outside the property)",
@@ -205,6 +210,18 @@ def run_history(kind, size, ops, keep=None):
         o = apply_op(G, op)
         with kept_view(G, K if keep is not None and i in keep else None):
             out.append(o + " " + view(G))
+    return "OK " + " | ".join(out)
+
+
+def run_history_watched(kind, size, ops, watch):
+    """the caller LOOKS at the object only after the steps in `watch` (0 = right after construction); between two looks
+    the object is updated without any of its views being read"""
+    G = make(kind, size)
+    view = VIEW[kind]
+    out = ["W" + (" " + view(G) if 0 in watch else "")]
+    for i, op in enumerate(ops, start=1):
+        o = apply_op(G, op)
+        out.append(o + (" " + view(G) if i in watch else ""))
     return "OK " + " | ".join(out)
 
 
@@ -401,9 +418,13 @@ def _ref_like(R):
     return R2
 
 
-def property_fails(kind, size, ops, nx_every=False, keep=None):
+def property_fails(kind, size, ops, nx_every=False, keep=None, watch=None):
     """None if the property holds on this history, else a description of the first failure.
-    keep: steps after which the views are taken through the edge view obtained (and listed once) after construction"""
+    keep: steps after which the views are taken through the edge view obtained (and listed once) after construction
+    watch: the ONLY steps after which any view is read (0 = after construction), all views and the networkx conversion
+    there; the outcome of every call is judged at every step"""
+    if watch is not None:
+        return _property_fails_watched(kind, size, ops, watch)
     R = Ref(kind, size)
     ctor_ok = all(s >= 0 for s in size)
     try:
@@ -442,6 +463,29 @@ def property_fails(kind, size, ops, nx_every=False, keep=None):
         if f is not None:
             f.update(step=0, op=None)
             return f
+    return None
+
+
+def _property_fails_watched(kind, size, ops, watch):
+    R = Ref(kind, size)
+    ctor_ok = all(s >= 0 for s in size)
+    try:
+        G = make(kind, size)
+    except ValueError:
+        return None if not ctor_ok else {"step": 0, "what": "constructor refused a legal size"}
+    if not ctor_ok:
+        return {"step": 0, "what": "constructor accepted a negative size"}
+    for i, op in enumerate([None] + list(ops)):
+        if i > 0:
+            want = R.step(op)
+            got = apply_op(G, op)
+            if got != want:
+                return {"step": i, "op": op, "view": "outcome of the call", "real_object": got, "edge_set_says": want}
+        if i in watch:
+            f = check_views(G, R) or check_networkx(G, R)
+            if f is not None:
+                f.update(step=i, op=op, views_last_read_after_step=max([w for w in watch if w < i], default=None))
+                return f
     return None
 
 
@@ -631,6 +675,8 @@ def nxraw_oracle(kind, klass, nxcls, size, labels, order, listing, other):
 
 
 def build(suite, info):
+    if suite not in ("hist", "batch", "watch", "nx", "nxraw"):
+        raise ValueError("unknown suite " + suite)
     kind = info["kind"]
     size = list(info["size"])
     if suite in ("hist", "batch"):
@@ -647,6 +693,22 @@ def build(suite, info):
             return run_history(kind, size, ops, keep)
         cls = KNAME[kind] + (":bad-size" if any(s < 0 for s in size) else "") + (":kept-view" if keep is not None else "")
         return Case(suite, r, impl, hist_oracle(kind, size, ops, keep), cls=cls, nontrivial=len(ops) > 0, info=info)
+    if suite == "watch":
+        ops = [list(o) for o in info["ops"]]
+        for o in ops:
+            if o[0] == "addm":
+                o[1] = [list(e) for e in o[1]]
+        watch = sorted(set(info["watch"]))
+        r = req("ghistw", kind, size, enc_ops(ops), [len(watch)] + watch)
+
+        def oracle():
+            f = property_fails(kind, size, ops, watch=set(watch))
+            if f is None:
+                return None
+            return {"graph": KNAME[kind], "initial_size": list(size), "history": ops, "views_read_only_after_steps": watch,
+                    "first_failure": f}
+        return Case(suite, r, lambda: run_history_watched(kind, size, ops, set(watch)), oracle,
+                    cls=KNAME[kind] + (":bad-size" if any(s < 0 for s in size) else ""), nontrivial=len(ops) > 0, info=info)
     if suite == "nx":
         edges = [tuple(e) for e in info["edges"]]
         labels, order, flips = info["labels"], info["order"], info["flips"]
@@ -809,6 +871,92 @@ def gen_history(rng, kind, size, length, p_bad=0.25):
             ops.append(["addm", es])
             present += [tuple(e) for e in es]
     return ops
+
+
+def gen_watched(rng, kind, size, length):
+    """a history whose views are read only at a random subset of the steps.  Between two looks the object goes through
+    runs of updates, many of which leave the COUNTS as they were: an edge removed and another inserted (in either order),
+    a removal and a re-insertion, net-zero runs of several removals and insertions, insertions of edges that are already
+    there; plus plain insertions, removals, growth and a few refused calls.  Returns (ops, watch)"""
+    n = size[0]
+    E = set()
+    ops = []
+
+    def key(u, v):
+        return (min(u, v), max(u, v)) if kind == SIMPLE else (u, v)
+
+    def absent():
+        if kind in (SIMPLE, DIRECTED):
+            c = [(u, v) for u in range(1, n + 1) for v in range(1, n + 1) if (u < v or (kind == DIRECTED and u != v))]
+        else:
+            c = [(u, v) for u in range(1, size[0] + 1) for v in range(1, size[1] + 1)]
+        return [e for e in c if e not in E]
+
+    def add(e):
+        u, v = e
+        if kind == SIMPLE and rng.random() < .5:
+            u, v = v, u
+        ops.append(["add", u, v])
+        E.add(key(*e))
+
+    def rem(e):
+        u, v = e
+        if rng.random() < .5:
+            u, v = v, u
+        ops.append(["rem", u, v])
+        E.discard(key(*e))
+    while len(ops) < length:
+        x = rng.random()
+        A = absent()
+        if kind != SIMPLE:
+            # these classes only grow
+            if x < .7 and A:
+                add(rng.choice(A))
+            elif x < .85 and E:
+                add(rng.choice(sorted(E)))                       # already there
+            elif A:
+                es = rng.sample(A, min(len(A), rng.randint(1, 3)))
+                ops.append(["addm", [list(e) for e in es]])
+                E.update(es)
+            else:
+                ops.append(["add"] + list(gen_pair(rng, kind, size, False)))
+            continue
+        if x < .30 and E and A:                                  # rewire: the counts come back to what they were
+            e, f = rng.choice(sorted(E)), rng.choice(A)
+            if rng.random() < .6:
+                rem(e), add(f)
+            else:
+                add(f), rem(e)
+        elif x < .40 and E and A:                                # net-zero run
+            k = rng.randint(1, min(3, len(E), len(A)))
+            todo = [("r", e) for e in rng.sample(sorted(E), k)] + [("a", f) for f in rng.sample(A, k)]
+            rng.shuffle(todo)
+            for t, e in todo:
+                rem(e) if t == "r" else add(e)
+        elif x < .48 and E:                                      # removed and put back
+            e = rng.choice(sorted(E))
+            rem(e), add(e)
+        elif x < .70 and A:
+            add(rng.choice(A))
+        elif x < .80 and E:
+            rem(rng.choice(sorted(E)))
+        elif x < .85 and E:
+            add(rng.choice(sorted(E)))                           # already there
+        elif x < .90 and n < 9:
+            n += 1
+            ops.append(["upd", n])
+        elif x < .95:
+            ops.append(["rem"] + list(gen_pair(rng, kind, [n], rng.random() < .5)))   # mostly not an edge
+            if len(ops[-1]) == 3 and key(ops[-1][1], ops[-1][2]) in E and ops[-1][1] != ops[-1][2]:
+                E.discard(key(ops[-1][1], ops[-1][2]))
+        else:
+            ops.append(["add"] + list(gen_pair(rng, kind, [n], False)))          # refused
+    p = rng.choice([.15, .3, .5])
+    watch = [i for i in range(0, len(ops) + 1) if rng.random() < p]
+    if not watch or watch[-1] != len(ops):
+        if rng.random() < .7:
+            watch.append(len(ops))
+    return ops, watch
 
 
 def gen_nx(rng, kind):
@@ -978,6 +1126,19 @@ def cases(ctx):
         yield build("hist", info)
     for i in range(reps // 3):
         yield build("nx", gen_nx(rng, rng.choice([SIMPLE, DIRECTED, BIP])))
+    # ---- views read only at a random subset of the steps (the object is NOT looked at in between)
+    rngw = common.sub_rng(seed, "C16-watch")
+    for kind, size, ops, watch in [(SIMPLE, [4], [["add", 1, 2], ["add", 2, 3], ["rem", 2, 3], ["add", 3, 4]], [2, 4]),
+                                   (SIMPLE, [4], [["add", 1, 2], ["add", 2, 3], ["add", 3, 4], ["rem", 2, 3]], [0, 1, 4]),
+                                   (SIMPLE, [3], [["add", 1, 2], ["rem", 2, 1], ["add", 1, 2], ["upd", 5], ["add", 5, 1]], [1, 3, 5]),
+                                   (DIRECTED, [3], [["add", 1, 2], ["add", 1, 2], ["add", 3, 1]], [1, 3]),
+                                   (BIP, [2, 2], [["add", 1, 1], ["addm", [[1, 2], [2, 1]]], ["add", 1, 2]], [1, 3])]:
+        yield build("watch", dict(kind=kind, size=size, ops=ops, watch=watch))
+    for i in range(260 if tier == "quick" else 5000):
+        kind = rngw.choice([SIMPLE, SIMPLE, SIMPLE, SIMPLE, DIRECTED, BIP])
+        size = [rngw.randint(3, 7)] if kind != BIP else [rngw.randint(2, 4), rngw.randint(2, 4)]
+        ops, watch = gen_watched(rngw, kind, size, rngw.choice([3, 5, 8, 12, 20, 30]))
+        yield build("watch", dict(kind=kind, size=size, ops=ops, watch=watch))
     # ---- long batches with a refused pair somewhere, object used afterwards
     rngb = common.sub_rng(seed, "C16-batch")
     lengths = batch_lengths(tier, rngb)
@@ -1003,6 +1164,18 @@ def cases(ctx):
 def search(ctx, case):
     """the correspondence broke on this case: is there a history on which the PROPERTY fails?"""
     info = case.info
+    if case.suite == "watch":
+        r = common.run_oracle(case)
+        if r is not None:
+            return r
+        rng = common.sub_rng(ctx["seed"], "C16-search-watch", case.req[:80])
+        for _ in range(300):
+            o, w = gen_watched(rng, info["kind"], list(info["size"]), rng.randint(2, 20))
+            f = property_fails(info["kind"], list(info["size"]), o, watch=set(w))
+            if f is not None:
+                return {"graph": KNAME[info["kind"]], "initial_size": list(info["size"]), "history": o,
+                        "views_read_only_after_steps": w, "first_failure": f}
+        return None
     if case.suite not in ("hist", "batch"):
         return None
     kind, size = info["kind"], list(info["size"])
